@@ -38,7 +38,7 @@ def build_response(b):
     import httpx
     raw = G.body_bytes(b["body"])
     headers = []
-    ct = b["ctv"] if b.get("ctv") is not None else G.CT_HEADER[b["ct"]]
+    ct = G.ct_header(b)
     if ct is not None:
         headers.append(("content-type", ct))
     if b.get("sess") is not None:
@@ -449,7 +449,7 @@ def completed_before_leave(case):
 
 
 def model_line(case):
-    if case.get("close_rd_after") is not None:
+    if case.get("close_rd_after") is not None or case.get("twins"):
         return None
     if case.get("leave_at") is not None:
         reqs = [{"id": case["reqs"][k]["id"], "b": G.model_behaviour(case["reqs"][k]["b"])} for k in completed_before_leave(case)]
@@ -558,7 +558,7 @@ def http_bytes(b):
     reason = {200: "OK", 202: "Accepted", 204: "No Content", 301: "Moved Permanently", 404: "Not Found", 500: "Internal Server Error"}
     status = b["status"]
     head = [f"HTTP/1.1 {status} {reason.get(status, 'X')}"]
-    ct = G.CT_HEADER[b["ct"]]
+    ct = G.ct_header(b)
     if ct is not None:
         head.append(f"Content-Type: {ct}")
     if b.get("sess") is not None:
